@@ -28,7 +28,7 @@ META['explanation'] += ' ' + 'R5 samples 8 byte fields beyond 2^32 and instants 
 
 META['explanation'] += ' ' + 'R8: timestamp fields receive the stored attribute (a constant in place of None never writes the sentinel).'
 
-META['explanation'] += ' ' + 'R3 also: a local-time function handed on as a value (converter), astimezone on a value whose zone was not tested. R10 / R11: the primitives keep nothing between calls. R12: no stripping, case mapping or replacement inside the shared string / byte primitives. R13: compose_bytes / compose_string evaluated around the largest length the prefix holds.'
+META['explanation'] += ' ' + 'R3 also: a local-time function handed on as a value (converter), astimezone on a value whose zone was not tested. R10 / R11: the primitives keep nothing between calls. R12: no stripping, case mapping or replacement inside the shared string / byte primitives. R13: compose_bytes / compose_string evaluated around the largest length the prefix holds. R14: the string primitives convert with the encoding they are given.'
 
 LOCAL_TIME = {'time.mktime', 'time.localtime', 'time.timezone', 'time.altzone', 'time.daylight', 'time.tzname', 'time.ctime',
               'time.asctime', 'time.strftime'}
@@ -61,6 +61,7 @@ def check(ctx, report):
                       title='no primitive writes class level state')
     octets_unchanged(ctx, report)
     length_prefixed_bytes(ctx, report)
+    codec_as_named(ctx, report)
     pm = model.modules.get('cryptoparser.common.parse')
     if pm is None:
         report.error('C11: cryptoparser/common/parse.py vanished')
@@ -307,6 +308,52 @@ def length_prefixed_bytes(ctx, report, RULE='C11.R13',
                                    prim, n, w, top, shown, want if isinstance(want, str) else 'the prefix and the data'))
                     break
     report.floor(RULE, 16, 'evaluated lengths')
+
+
+def codec_as_named(ctx, report, RULE='C11.R14', classes=('ParserBase', 'ParserBinary', 'ParserText', 'ComposerBase', 'ComposerBinary', 'ComposerText'),
+                   title='the string primitives convert with the encoding they are told to use (no literal codec on the way)'):
+    """A primitive that takes an ``encoding`` (or whose object holds ``self._encoding``) converts between octets and text with that
+    codec, always: a literal codec in its place - an "ASCII fast path" (``value.decode('ascii')``) in front of the named codec -
+    gives another text for every codec that is not a superset of the literal one (``idna`` turns the ASCII octets ``xn--...``
+    into other characters).  In every method of the primitive classes that has an ``encoding`` parameter or reads
+    ``self._encoding``, each ``decode`` / ``encode`` / ``six.ensure_text`` / ``six.ensure_binary`` / ``str(..., codec)`` call names
+    its codec through that parameter or attribute; a string literal there is a finding (the codec of a *separator constant* the
+    method itself spells out, and ``errors=`` arguments, are not codecs of data)."""
+    model = ctx.model
+    report.rule(RULE, title)
+    n = 0
+    for name in classes:
+        c = model.try_cls(name)
+        if c is None:
+            continue
+        for f in c.methods.values():
+            params = [a.arg for a in f.node.args.args + f.node.args.kwonlyargs]
+            src = ast.unparse(f.node)
+            if 'encoding' not in params and 'self._encoding' not in src:
+                continue
+            n += 1
+            report.touch(f)
+            for x in ast.walk(f.node):
+                if not isinstance(x, ast.Call):
+                    continue
+                fn = ast.unparse(x.func)
+                codec = None
+                if isinstance(x.func, ast.Attribute) and x.func.attr in ('decode', 'encode') and x.args:
+                    codec, subject = x.args[0], x.func.value
+                elif fn in ('six.ensure_text', 'six.ensure_binary', 'six.ensure_str', 'str', 'bytes', 'bytearray', 'six.text_type') and len(x.args) >= 2:
+                    codec, subject = x.args[1], x.args[0]
+                else:
+                    for k in x.keywords:
+                        if k.arg == 'encoding':
+                            codec, subject = k.value, (x.args[0] if x.args else None)
+                if codec is None:
+                    continue
+                if isinstance(codec, ast.Constant) and isinstance(codec.value, str) and not isinstance(subject, ast.Constant):
+                    report.add(RULE, '%s@codec[%s]' % (f.construct, codec.value),
+                               '%s converts with the literal codec %r although the method is told which encoding to use: data of an encoding that is '
+                               'not a superset of it (idna names, utf-16 text) is converted differently' % (ast.unparse(x)[:60], codec.value))
+    report.count(RULE, n)
+    report.floor(RULE, 10, 'methods of the primitive classes that take or hold an encoding')
 
 
 NORMALISING_METHODS = ('strip', 'lstrip', 'rstrip', 'lower', 'upper', 'title', 'casefold', 'swapcase', 'capitalize', 'expandtabs', 'translate',
@@ -1109,5 +1156,32 @@ def masked_writes(ctx, report):
             report.add('C11.R7', '%s@masked[%s]' % (f.construct, x[:50]),
                        '%s is reduced to %d byte(s) with %s before it is written: a value that does not fit is truncated instead of refused' % (
                            x[:60], e.w, 'a mask' if v.op == 'and' else 'a modulus'))
+    # two fields packed into one write (``len(body) | number << 24`` into 4 octets): the primitive checks the word, not the part - a low
+    # part that outgrows its bits runs into the high part instead of being refused.  The low part has to be masked, a constant, or an
+    # enum code; a length or an attribute of the object is a finding
+    for c in ctx.model.concrete_parsables():
+        f = c.methods.get('compose')
+        if f is None:
+            continue
+        try:
+            cn = ctx.canon.canon(c, 'compose')
+        except Exception:      # pylint: disable=broad-except
+            continue
+        if cn is None:
+            continue
+        for e in [e for e in _descendants(cn.elements) if e.kind == 'u' and isinstance(e.w, int)]:
+            v = e.val
+            if not (isinstance(v, Sym) and v.op in ('or', 'add') and len(v.args) == 2):
+                continue
+            shifted = [a for a in v.args if isinstance(a, Sym) and a.op == 'lshift' and len(a.args) == 2 and isinstance(a.args[1], int)]
+            low = [a for a in v.args if not (isinstance(a, Sym) and a.op == 'lshift')]
+            if len(shifted) != 1 or len(low) != 1 or isinstance(low[0], (int, bool)):
+                continue
+            lo = low[0]
+            if isinstance(lo, Sym) and lo.op in ('and', 'mod'):
+                continue        # cut to its bits explicitly
+            report.add('C11.R7', '%s@packed[%s]' % (f.construct, show(lo)[:40]),
+                       '%s is written into the low %d bits of a %d octet word next to %s: nothing refuses a value that needs more bits, it runs into '
+                       'the other field' % (show(lo)[:60], shifted[0].args[1], e.w, show(shifted[0])[:50]))
     report.count('C11.R7', n)
     report.floor('C11.R7', 120, 'fixed-width integer writes')
